@@ -250,7 +250,7 @@ CLAIMED['C06'] = dict(
          'parseExpression (e.print) = ok e on strings for every e built from a printable tree whose literal tokens and variable names are '
          'complete tokens (Raw.lexOkB, decidable); pred_print_parse_roundtrip for predicates; via lexR (scanner model reads Raw.chars as '
          'Raw.toks), scanNumber_local/scanString_local, build_erase, print_chars. On every generated text the driver evaluates the '
-         'hypotheses; for every parser output parse_print_parse (Props/C06m, with parse_sound of C01e): parseExpressionToks ts = ok e and Raw.goodNames e imply printable e and parseExpressionToks e.toks = ok e (renders_printable by induction on derivations); (printable, lexOkB) and that lexing the printed form gives Raw.toks (rtcheck); at property level parse_printed_property (Props/C06j-k, C18b): the printed text of a printable property tree scans and parses back to that tree (scanner at depth 0, channel names, glued units; parser key-invariance parsePropertyToks_sim). Lean model of every __str__ '
+         'hypotheses; on strings for every input parse_print_parse_text / _pred (Props/C06n): parseExpression s = ok e with good names implies parseExpression (e.print) = ok e (lex_tokOk: scanned literal tokens are complete tokens of their own text; renders_lexOk); for every parser output parse_print_parse (Props/C06m, with parse_sound of C01e): parseExpressionToks ts = ok e and Raw.goodNames e imply printable e and parseExpressionToks e.toks = ok e (renders_printable by induction on derivations); (printable, lexOkB) and that lexing the printed form gives Raw.toks (rtcheck); at property level parse_printed_property (Props/C06j-k, C18b): the printed text of a printable property tree scans and parses back to that tree (scanner at depth 0, channel names, glued units; parser key-invariance parsePropertyToks_sim). Lean model of every __str__ '
          '(expressions, predicates, events with flat disjunctions, scopes, patterns with ms/s time bounds, properties, specifications) compared '
          'with the implementation; the round trip (str -> parse -> equal AST, equal hash, stable second print, injectivity of printing) is also '
          'decided on the implementation for every node kind, widths up to 4 and 27 time bounds over 18 orders of magnitude. Two defects found '
